@@ -76,6 +76,21 @@ QGroupDup == {Q(<<T(cK, "kk"), T(cS, "ss"), T(a, "a")>>, NoE, gr, NoE, <<>>, <<>
                  a \in {Agg("count", Star), Agg("sum", cV)},
                  gr \in {<<RefIdx(1), RefE(Col("kk")), RefIdx(2)>>, <<RefE(cK), RefE(cK), RefE(cS)>>, <<RefIdx(1), RefIdx(2), RefIdx(1)>>,
                          <<RefE(cS), RefIdx(1), RefE(Col("ss"))>>, <<RefIdx(2), RefIdx(2), RefIdx(1)>>}}
+\* two aggregates of one function whose operands differ only below a unary operator / a test (sum(-v), sum(-k)): each
+\* cell is the fold of ITS operand; grouping without any aggregate function (every target a key, some keys not selected)
+QAggPairs == {Q(<<T(Agg(f, w[1]), "a"), T(Agg(f, w[2]), "b")>>, NoE, gr, NoE, <<>>, <<>>, FALSE, -1) :
+                 f \in {"sum", "min", "max", "first", "last", "count"},
+                 w \in {<<Un("neg", cV), Un("neg", cK)>>, <<Un("neg", cK), Un("neg", cV)>>},
+                 gr \in {<<>>, <<RefE(cS)>>}}
+             \cup {Q(<<T(Agg(f, Un("isnull", cV)), "a"), T(Agg(f, Un("isnull", cS)), "b"), T(Agg(f, Un("isnotnull", cV)), "c")>>, NoE, gr, NoE, <<>>, <<>>, FALSE, -1) :
+                 f \in {"first", "last", "count", "max"}, gr \in {<<>>, <<RefE(cK)>>}}
+             \cup {Q(<<T(Agg("count", Star), "a"), T(Agg("count", Const(Null)), "b"), T(Agg("count", cV), "c")>>, NoE, <<>>, NoE, <<>>, <<>>, FALSE, -1)}
+QGroupNoAgg == {Q(tg, NoE, gr, NoE, od, <<>>, FALSE, lm) :
+                   tg \in {<<T(cK, "")>>, <<T(cS, ""), T(cK, "")>>}, gr \in {<<RefE(cK), RefE(cS)>>, <<RefE(cS), RefE(cK), RefE(Un("isnull", cV))>>},
+                   od \in {<<>>, <<O(RefIdx(1), TRUE)>>}, lm \in {-1, 2}}
+\* aggregates only (one group), ordered by an aggregate that is not selected: the helper is not a column of the row
+QAggOnlyOrd == {Q(<<T(Agg("count", cV), "n")>>, wh, <<>>, NoE, <<O(RefE(Agg("sum", cV)), d)>>, <<>>, ds, lm) :
+                   wh \in {NoE, Bin("gt", cV, Const(IntV(5)))}, d \in BOOLEAN, ds \in BOOLEAN, lm \in {-1, 0, 1}}
 QHaving == {Q(<<T(cK, ""), T(Agg("sum", cV), "sv")>>, NoE, <<RefE(cK)>>, hv, od, <<>>, FALSE, -1) :
                hv \in {Bin("gt", Agg("count", Star), Const(IntV(1))), Bin("gt", Agg("sum", cV), Const(IntV(1))),
                        Un("isnull", Agg("min", cV)), Agg("sum", cV)},
@@ -111,6 +126,9 @@ QPivotInvalid == {
         pv \in {<<RefIdx(1), RefIdx(1)>>, <<RefIdx(1), RefIdx(3)>>, <<RefIdx(2), RefIdx(3)>>, <<RefIdx(1), RefIdx(4)>>, <<RefIdx(0), RefIdx(2)>>,
                 <<RefE(Col("zz")), RefIdx(2)>>, <<RefE(Col("kk")), RefE(Col("sv"))>>, <<RefE(Col("ss")), RefE(Col("ss"))>>,
                 <<RefE(Col("kk")), RefIdx(1)>>, <<RefIdx(2), RefE(Col("ss"))>>, <<RefIdx(1), RefE(Col("kk"))>>}}
+    \cup {Q(<<T(cK, "kk"), T(Agg("sum", cV), "sv")>>, NoE, gr, NoE, <<>>, pv, FALSE, -1) :
+             gr \in {<<RefE(cK), RefE(cS)>>, <<RefIdx(1), RefE(cS)>>},
+             pv \in {<<RefE(Col("kk")), RefE(Col("s"))>>, <<RefE(Col("s")), RefE(Col("kk"))>>, <<RefIdx(1), RefE(Col("s"))>>, <<RefE(Col("k")), RefE(Col("s"))>>}}
     \cup {Q(<<T(cK, "kk"), T(cS, "ss"), T(cV, "vv")>>, NoE, <<>>, NoE, <<>>, <<RefIdx(1), RefIdx(2)>>, FALSE, -1)}
 
 \* C05: invalid statements of every rule (and a few valid neighbours)
@@ -184,10 +202,10 @@ QInvalid == QAggSites \cup {
 Queries ==
     CASE QuerySet = "plain" -> QPlain
       [] QuerySet = "order" -> QOrder \cup QDistinct \cup QDistinctAgg
-      [] QuerySet = "group" -> QGroup1 \cup QGroup2 \cup QHaving \cup QHidden \cup QNoRows \cup QGroupDup
+      [] QuerySet = "group" -> QGroup1 \cup QGroup2 \cup QHaving \cup QHidden \cup QNoRows \cup QGroupDup \cup QAggPairs \cup QGroupNoAgg \cup QAggOnlyOrd
       [] QuerySet = "pivot" -> QPivot \cup QPivotInvalid
       [] QuerySet = "invalid" -> QInvalid
-      [] OTHER -> QPlain \cup QOrder \cup QDistinct \cup QDistinctAgg \cup QGroupDup \cup QGroup1 \cup QGroup2 \cup QHaving \cup QHidden \cup QNoRows \cup QPivot \cup QPivotInvalid \cup QInvalid
+      [] OTHER -> QPlain \cup QOrder \cup QDistinct \cup QDistinctAgg \cup QGroupDup \cup QAggPairs \cup QGroupNoAgg \cup QAggOnlyOrd \cup QGroup1 \cup QGroup2 \cup QHaving \cup QHidden \cup QNoRows \cup QPivot \cup QPivotInvalid \cup QInvalid
 
 -----------------------------------------------------------------------------
 VARIABLES code, q, phase, i, keys, groups, rows, passhi, out, table, cq
